@@ -203,6 +203,40 @@ def k_param_match(ctx, sub, has_step, has_notice, sub_as="enum"):
         ctx.fail("report.param_match", "wrong_error", f"{type(res).__name__}", case, error=repr(res))
 
 
+def k_rid_set(ctx, seed, n=1500):
+    """Many request ids at once (a tracker's dictionary): random ones plus structured neighbours of each other - halves exchanged,
+    one field up and another down by a fixed ratio, same XOR / same sum of the two 16-bit words - all distinct 32-bit values must be
+    distinct dictionary keys and compare unequal, equal values must find each other."""
+    import random
+    r = random.Random(f"ridset/{seed}")
+    case = {"k": "rid_set", "seed": seed, "n": n}
+    ctx.case("rid_set", seed, sample=case)
+    vals = set()
+    while len(vals) < n:
+        v = r.getrandbits(32)
+        hi, lo = v >> 16, v & 0xFFFF
+        fam = [v, (lo << 16) | hi, ((hi ^ 1) << 16) | (lo ^ 1), (((hi + 1) & 0xFFFF) << 16) | ((lo - 31) & 0xFFFF), (((hi + 2) & 0xFFFF) << 16) | ((lo - 62) & 0xFFFF),
+               (((hi + 1) & 0xFFFF) << 16) | ((lo - 1) & 0xFFFF), (((hi + 1) & 0xFFFF) << 16) | ((lo - 1000003) & 0xFFFF), v ^ 0x80008000, v ^ 0x00010001, (hi << 16) | hi, (lo << 16) | lo]
+        vals.update(fam)
+    vals = sorted(vals)
+    objs = [mk_rid(v, ROUTES[i % 4]) for i, v in enumerate(vals)]
+    d = {}
+    for o, v in zip(objs, vals):
+        d[o] = v
+    if not ctx.check("rid.hash", len(d) == len(vals), "dict_conflates_different_ids", "many_ids", case, distinct_values=len(vals), dict_size=len(d)):
+        # name one colliding pair as witness
+        seen = {}
+        for o, v in zip(objs, vals):
+            k = [w for w, p in seen.items() if p == o]
+            if k:
+                ctx.fail("rid.eq", "different_values_compare_equal", "structured_pair", {"k": "rid_pair", "a": k[0], "b": v, "ra": "ctor", "rb": "ctor"}, a=hex(k[0]), b=hex(v))
+                break
+            seen[v] = o
+        return
+    ok = all(d.get(mk_rid(v, "unpack")) == v for v in r.sample(vals, 300))
+    ctx.check("rid.hash", ok, "dict_lookup_fails", "many_ids", case)
+
+
 def k_rid_history(ctx, seed):
     """One request-id object whose public attributes are reassigned between reads: after every step all views agree
     with each other and with a fresh object of the same bits."""
@@ -285,7 +319,7 @@ def k_pfe(ctx, width, val):
     ctx.check("pfe", (not ok) and isinstance(u, ValueError), "short_input_accepted", f"w={width}", case, observed=repr(u))
 
 
-KINDS = {"rid_history": k_rid_history, "rid": k_rid, "rid_pair": k_rid_pair, "report": k_report, "param_match": k_param_match, "pfe": k_pfe}
+KINDS = {"rid_set": k_rid_set, "rid_history": k_rid_history, "rid": k_rid, "rid_pair": k_rid_pair, "report": k_report, "param_match": k_param_match, "pfe": k_pfe}
 
 
 def rand_report(r, sub=None, sw=None, cw=None, fd=None, tsl=None, route=None):
@@ -335,6 +369,8 @@ def run(ctx):
         c = r.random()
         b = a if c < 0.4 else a ^ (1 << r.randrange(32)) if c < 0.8 else r.getrandbits(32)
         k_rid_pair(ctx, a, b, r.choice(ROUTES), r.choice(ROUTES))
+    for j in range(ctx.n(4, 200)):
+        k_rid_set(ctx, ctx.seed * 1_000_003 + ctx.shard[0] * 100_003 + j)
     for j in range(ctx.n(2000, 200_000)):
         k_rid_history(ctx, ctx.seed * 1_000_003 + ctx.shard[0] * 100_003 + j)
     # report grid
